@@ -78,6 +78,9 @@ func loadPkg(dir string, cfg *config) *pkg {
 			switch d := d.(type) {
 			case *ast.FuncDecl:
 				k := funcKey(d)
+				if k == "init" || k == "_" {
+					continue // may be declared several times, never translated
+				}
 				if _, dup := p.funcs[k]; dup {
 					p.failAt(d, "duplicate function %s", k)
 				}
